@@ -245,6 +245,34 @@ theorem callSeq_last (c : Cfg) (k : Constructed) (calls : List (Nat × Nat)) (la
       simp only [callSeq]
       rw [this]; simp
 
+/-- a certificate says every head's stride is positive and divides the max stride -/
+theorem wellFormed_head_dvd (c : Cfg) (hw : wellFormed c = true) :
+    ∀ hd ∈ c.heads, 0 < hd.os ∧ hd.os ∣ c.realMaxStride := by
+  unfold wellFormed at hw
+  cases hbd : build c with
+  | err e => simp [hbd] at hw
+  | ok bb =>
+    simp only [hbd, Bool.and_eq_true] at hw
+    obtain ⟨_, hw⟩ := hw
+    cases hc : chanStages c bb with
+    | err e => simp [hc] at hw
+    | ok chans =>
+      cases hsp : spatStages bb true c.realMaxStride with
+      | err e => simp [hc, hsp] at hw
+      | ok l0 =>
+        simp only [hc, hsp, List.all_eq_true] at hw
+        intro hd hhd
+        have := hw hd hhd
+        unfold certOs at this
+        simp only [Bool.and_eq_true, decide_eq_true_eq] at this
+        obtain ⟨hpos, this⟩ := this
+        cases hf : findIdx (labels bb.dec) hd.os with
+        | err e => simp [hf] at this
+        | ok i =>
+          simp only [hf, Bool.and_eq_true, beq_iff_eq] at this
+          exact ⟨hpos, ⟨l0.getD i 0, by rw [← this.2, Nat.mul_comm]⟩⟩
+
+
 /-! ## the stem kernel of the ConvNeXt / Swin wrappers (`stem_patch_kernel`, `patch_size`)
 
 The stem conv has `padding = 1` hard-coded, so it divides multiples of its stride exactly iff
@@ -267,7 +295,7 @@ theorem wellFormed_stemKernel (c : Cfg) (hf : c.fam ≠ .unet) (k : Nat) (hk : 2
   | unet => exact absurd hfam hf
   | convnext =>
     simp only [Cfg.realMaxStride]
-    cases decBuild ((convnextChannels c.variant).getD 0 0) c.rate 3 (wrapUp c.fixWrap c.stem c.bos)
+    cases decBuild false ((convnextChannels c.variant).getD 0 0) c.rate 3 (wrapUp c.fixWrap c.stem c.bos)
         ((convnextChannels c.variant).getD 3 0) (c.stem * 4) c.bos with
     | err e => rfl
     | ok dec =>
@@ -276,7 +304,7 @@ theorem wellFormed_stemKernel (c : Cfg) (hf : c.fam ≠ .unet) (k : Nat) (hk : 2
       simp [hk.1, hk.2, e4.2, hs, certOs, Cfg.minOs, Cfg.realMaxStride, labels]
   | swint =>
     simp only [Cfg.realMaxStride]
-    cases decBuild (swintEmbed c.variant) c.rate 3 (wrapUp c.fixWrap c.stem c.bos)
+    cases decBuild false (swintEmbed c.variant) c.rate 3 (wrapUp c.fixWrap c.stem c.bos)
         (swintEmbed c.variant * 8) (c.stem * 4) c.bos with
     | err e => rfl
     | ok dec =>
